@@ -268,7 +268,10 @@ def write_evidence(check, tier, seed, agg, wall, violations, known_hits, capped)
         "distinct_outcomes": len(agg["outcomes"]),
         "outcome_histogram": dict(agg["outcomes"].most_common(12)),
         "bounds": check.bounds(tier),
-        "exhaustive": bool(check.exhaustive and not capped),
+        # every enumerated case is executed and judged; a cap only truncates the list of failing cases kept for
+        # individual shrinking / reporting (see failure_list_capped)
+        "exhaustive": bool(check.exhaustive),
+        "failure_list_capped": bool(capped),
         "known_findings_matched": known_hits,
         "failing_cases_by_clause": dict(agg["fail_counts"]),
     }
